@@ -94,7 +94,7 @@ impl<const L: usize> BookDyn for OrderBook<L> {
     fn apply(&mut self, l: &Value) -> Value {
         if let Some(dt) = l.get("dt").and_then(|x| x.as_u64()) {
             if dt > 0 {
-                self.set_time(self.get_time() + dt);
+                self.set_time(self.get_time() + dt * crate::TIME_SCALE.load(Ordering::Relaxed));
             }
         }
         let op = l.get("op").and_then(|x| x.as_str()).unwrap_or("?");
@@ -142,7 +142,7 @@ impl<const L: usize> BookDyn for OrderBook<L> {
                 Value::Null
             }
             "settime" => {
-                self.set_time(get_u64(l, "t"));
+                self.set_time(crate::time_r(get_u64(l, "t")));
                 Value::Null
             }
             "enable" => {
